@@ -139,6 +139,50 @@ func runC12(r *Run, p *Prog) {
 			}
 		}
 	})
+	// ---- X1b: below ReplyError, the write chain refuses a reply only for a oneway call or a failed marshal
+	r.Guard("X1b", func() {
+		f := p.Func(pkgVarlink, "Call.ReplyError")
+		if f == nil {
+			return
+		}
+		chain := map[*ssa.Function]bool{}
+		for g := range cg.Reach([]*ssa.Function{f}, false) {
+			if g == f || fnPkgPath(g) != pkgVarlink {
+				continue
+			}
+			for h := range cg.Reach([]*ssa.Function{g}, false) {
+				if wfn[h] {
+					chain[g] = true
+				}
+			}
+		}
+		wsite := map[ssa.Instruction]bool{}
+		for _, w := range ro.WSites {
+			wsite[w.Instr] = true
+		}
+		n := 0
+		for g := range chain {
+			n++
+			delivers := func(in ssa.Instruction) bool { return wsite[in] || isW(in) }
+			allowed := func(fs []Fact) bool {
+				if callFlagFact(fs, ".In.Oneway", true) {
+					return true
+				}
+				for _, fc := range fs {
+					if fc.Op == "NE" && (fc.A == "nil" || fc.B == "nil") && strings.Contains(fc.A+fc.B, "json.Marshal") {
+						return true
+					}
+				}
+				return false
+			}
+			reach, w := reachInstr(g, nil, isReturn, delivers, func(a, b *ssa.BasicBlock) bool { return allowed(T.edgeFactsOn(a, b)) })
+			r.Ob("X1", shortName(g), "the write path below ReplyError gives up only for a oneway call or a marshal error", g.Pos(), !reach,
+				"a function between ReplyError and the connection write can return without writing for another reason: error replies with a valid name are refused in some call states", witnessPos(p, w)...)
+		}
+		if n == 0 {
+			r.Unresolved("X1", "functions between ReplyError and the connection write")
+		}
+	})
 	// ---- X2
 	r.Guard("X2", func() {
 		decl := reErrDecl.FindAllStringSubmatch(bdesc, -1)
